@@ -317,7 +317,10 @@ def hashed(ctx, p):
         H = xgi.Hypergraph()
         H.add_nodes_from([nl[i] for i in no])
         for j in eo:
-            H.add_edge([nl[i] for i in edges[j]], idx=el[j])
+            mem = [nl[i] for i in edges[j]]
+            if p.get("mrev") and j % 2 == 1:
+                mem.reverse()  # members of alternate edges listed in the opposite order
+            H.add_edge(mem, idx=el[j])
         ref = reference(shape, m)
         got = _run(m, H, nl, el)
     if got[0] == "exc" and ref[0] != "exc":
@@ -366,6 +369,8 @@ def spec(tier, seed):
         for o in ((list(range(N)), list(range(M))), (list(reversed(range(N))), list(reversed(range(M))))):
             for m in HASH_MEASURES:
                 units.append(("C09.hash", {"shape": s, "measure": m, "order": o}))
+        for m in HASH_MEASURES:
+            units.append(("C09.hash", {"shape": s, "measure": m, "order": (list(range(N)), list(range(M))), "mrev": True}))
     return {
         "units": units,
         "caps": {"paths": 50000, "wall": 600},
